@@ -39,7 +39,10 @@ fn exec_line(line: &str) -> String {
     let spec = Spec::parse(line);
     let r = run_all(&spec);
     let base_ok = matches!(r.outcomes[0], Outcome::Ok(_));
-    let mut runs = vec![outcome_term(&r.outcomes[0], None)];
+    // the baseline outputs are only needed when some configuration returned different outputs;
+    // otherwise they are elided (printed as `ROk []`) to keep the Coq terms small
+    let need_base = (1..r.outcomes.len()).any(|k| matches!(r.outcomes[k], Outcome::Ok(_)) && r.outcomes[k] != r.outcomes[0]);
+    let mut runs = vec![if base_ok && !need_base { "ROk []".to_string() } else { outcome_term(&r.outcomes[0], None) }];
     for k in 1..r.outcomes.len() { runs.push(outcome_term(&r.outcomes[k], Some(&r.outcomes[0]))); }
     let fired_ = match &r.dumps[2] { Some(d) if !spec.focus.is_empty() => fired(&spec.focus, d), _ => false };
     let focus = if spec.focus.is_empty() || r.dumps[2].is_none() { "FNone".to_string() } else { focus_term(&spec.focus) };
